@@ -97,6 +97,9 @@ def unwrap_kiwi_future(future: kiwipy.Future) -> kiwipy.Future:
     unwrapping = kiwipy.Future()
 
     def unwrap(fut: kiwipy.Future) -> None:
+        if unwrapping.done():
+            # The consumer cancelled the unwrapping future in the meantime: nothing to deliver
+            return
         if fut.cancelled():
             unwrapping.cancel()
         else:
